@@ -23,6 +23,10 @@ pub struct Cfg {
     pub send_delay_ms: u64,
     /// the application calls bootstrapped() at this period
     pub poll_bootstrapped_ms: Option<u64>,
+    /// the socket reports a receive error (ConnectionReset, as after an ICMP error) this often
+    pub recv_error_every_ms: Option<u64>,
+    /// (at, ms): a client pings the node at `at`; the send_to of the reply completes only `ms` later
+    pub stall: Option<(u64, u64)>,
     pub rng_seed: u64,
 }
 
@@ -98,6 +102,19 @@ pub fn build(cfg: &Cfg) -> (Scenario, Vec<Box<dyn Peer>>) {
             j += 1;
         }
     }
+    if let Some(every) = cfg.recv_error_every_ms {
+        let mut t = 3_000u64;
+        while t < cfg.minutes * 60_000 {
+            sc.actions.push((crate::sim::When::At(t), crate::sim::Action::RecvError { node: 0, kind: if (t / every) % 2 == 0 { "ConnectionReset".into() } else { "ConnectionRefused".into() } }));
+            t += every;
+        }
+    }
+    if let Some((at, ms)) = cfg.stall {
+        let client: SocketAddr = "10.0.9.9:4009".parse().unwrap();
+        peers.push(Box::new(crate::sim::peers::Sink { addr: client, received: vec![] }));
+        sc.stall_dst = vec![(client, at, ms)];
+        sc.actions.push((crate::sim::When::At(at), crate::sim::Action::Inject { from: client, to: node_addr(), bytes: sim::krpc::ping(b"st", &[0x44; 20]), tag: String::new() }));
+    }
     sc.sample = vec![(0, 1000, 500)];
     (sc, peers)
 }
@@ -153,6 +170,22 @@ pub fn judge(cfg: &Cfg, res: &RunResult) -> Verdict {
             ));
         }
     }
+    // the same on the scale of one interval: within 6 s, one timer round (two if the window touches two
+    // intervals) plus one per bootstrap attempt that may complete in it
+    let mut j = 0usize;
+    for i in 0..s.len() {
+        while j + 1 < s.len() && s[j + 1].0 <= s[i].0 + 6_000 {
+            j += 1;
+        }
+        if j <= i {
+            continue;
+        }
+        let rounds = s[j].1 - s[i].1;
+        let attempts = attempt_times.iter().filter(|t| **t + 15_000 >= s[i].0 && **t <= s[j].0 + 1_000).count() as u64;
+        if rounds > 2 + attempts && v.is_empty() {
+            v.push(("refresh-burst".to_string(), format!("{} refresh rounds between {} and {} ms with {} bootstrap attempts that can have completed in that window (allowed {}); {:?}", rounds, s[i].0, s[j].0, attempts, 2 + attempts, cfg)));
+        }
+    }
     let max_queue = s.iter().map(|x| x.2).max().unwrap_or(0).max(res.max_timer_queue);
     // without searches: the refresh timer (+ slack); with searches: plus the per-query and end-game timers of
     // the (at most two overlapping) lookups
@@ -170,7 +203,7 @@ pub fn judge(cfg: &Cfg, res: &RunResult) -> Verdict {
 }
 
 fn cfg_json(c: &Cfg) -> Value {
-    json!({"contacts":c.contacts,"outages":c.outages,"minutes":c.minutes,"latency":c.latency,"unreachable_hearsay":c.unreachable_hearsay,"search_every_ms":c.search_every_ms,"send_delay_ms":c.send_delay_ms,"poll_bootstrapped_ms":c.poll_bootstrapped_ms,"rng_seed":c.rng_seed})
+    json!({"contacts":c.contacts,"outages":c.outages,"minutes":c.minutes,"latency":c.latency,"unreachable_hearsay":c.unreachable_hearsay,"search_every_ms":c.search_every_ms,"send_delay_ms":c.send_delay_ms,"poll_bootstrapped_ms":c.poll_bootstrapped_ms,"recv_error_every_ms":c.recv_error_every_ms,"stall":c.stall.map(|(a,b)| json!([a,b])),"rng_seed":c.rng_seed})
 }
 
 pub fn replay(v: &Value) -> i32 {
@@ -184,6 +217,8 @@ pub fn replay(v: &Value) -> i32 {
         search_every_ms: c["search_every_ms"].as_u64(),
         send_delay_ms: c["send_delay_ms"].as_u64().unwrap_or(0),
         poll_bootstrapped_ms: c["poll_bootstrapped_ms"].as_u64(),
+        recv_error_every_ms: c["recv_error_every_ms"].as_u64(),
+        stall: c["stall"].as_array().map(|a| (a[0].as_u64().unwrap_or(0), a[1].as_u64().unwrap_or(0))),
         rng_seed: c["rng_seed"].as_u64().unwrap_or(1),
     };
     let (sc, peers) = build(&cfg);
@@ -211,9 +246,9 @@ pub fn run(tier: Tier) -> Report {
                     if minutes >= 360 && latency != 20 {
                         continue;
                     }
-                    cfgs.push(Cfg { contacts, outages, minutes, latency, unreachable_hearsay: false, search_every_ms: None, send_delay_ms: 0, poll_bootstrapped_ms: None, rng_seed: 1 + seed });
+                    cfgs.push(Cfg { contacts, outages, minutes, latency, unreachable_hearsay: false, search_every_ms: None, send_delay_ms: 0, poll_bootstrapped_ms: None, recv_error_every_ms: None, stall: None, rng_seed: 1 + seed });
                     if latency == 20 {
-                        cfgs.push(Cfg { contacts, outages, minutes, latency, unreachable_hearsay: true, search_every_ms: None, send_delay_ms: 0, poll_bootstrapped_ms: None, rng_seed: 1 + seed });
+                        cfgs.push(Cfg { contacts, outages, minutes, latency, unreachable_hearsay: true, search_every_ms: None, send_delay_ms: 0, poll_bootstrapped_ms: None, recv_error_every_ms: None, stall: None, rng_seed: 1 + seed });
                     }
                 }
             }
@@ -221,20 +256,29 @@ pub fn run(tier: Tier) -> Report {
     }
     if tier == Tier::Quick {
         for contacts in 1..=3usize {
-            cfgs.push(Cfg { contacts, outages: false, minutes: 60, latency: 20, unreachable_hearsay: contacts == 2, search_every_ms: None, send_delay_ms: 0, poll_bootstrapped_ms: None, rng_seed: 1 + seed });
+            cfgs.push(Cfg { contacts, outages: false, minutes: 60, latency: 20, unreachable_hearsay: contacts == 2, search_every_ms: None, send_delay_ms: 0, poll_bootstrapped_ms: None, recv_error_every_ms: None, stall: None, rng_seed: 1 + seed });
         }
-        cfgs.push(Cfg { contacts: 1, outages: true, minutes: 70, latency: 20, unreachable_hearsay: false, search_every_ms: None, send_delay_ms: 0, poll_bootstrapped_ms: None, rng_seed: 1 + seed });
+        cfgs.push(Cfg { contacts: 1, outages: true, minutes: 70, latency: 20, unreachable_hearsay: false, search_every_ms: None, send_delay_ms: 0, poll_bootstrapped_ms: None, recv_error_every_ms: None, stall: None, rng_seed: 1 + seed });
     }
     // user activity: announcing searches every ~3 s, sends that take time (handler awaits inside a lookup
     // while bootstrap completions arrive)
     for contacts in 1..=2usize {
         for (every, delay) in [(2_600u64, 300u64), (3_100, 0), (2_600, 40)] {
-            cfgs.push(Cfg { contacts, outages: false, minutes: tier.pick(20, 60), latency: 20, unreachable_hearsay: contacts == 1, search_every_ms: Some(every), send_delay_ms: delay, poll_bootstrapped_ms: None, rng_seed: 1 + seed });
+            cfgs.push(Cfg { contacts, outages: false, minutes: tier.pick(20, 60), latency: 20, unreachable_hearsay: contacts == 1, search_every_ms: Some(every), send_delay_ms: delay, poll_bootstrapped_ms: None, recv_error_every_ms: None, stall: None, rng_seed: 1 + seed });
+        }
+    }
+    // receive errors (ICMP errors surfacing on the socket) and a send_to that blocks for a minute
+    for contacts in [1usize, 3] {
+        for every in [2_000u64, 700] {
+            cfgs.push(Cfg { contacts, outages: false, minutes: 10, latency: 20, unreachable_hearsay: false, search_every_ms: None, send_delay_ms: 0, poll_bootstrapped_ms: None, recv_error_every_ms: Some(every), stall: None, rng_seed: 1 + seed });
+        }
+        for (at, ms) in [(30_000u64, 60_000u64), (61_500, 20_000), (100_000, 7_000)] {
+            cfgs.push(Cfg { contacts, outages: false, minutes: 5, latency: 20, unreachable_hearsay: false, search_every_ms: None, send_delay_ms: 0, poll_bootstrapped_ms: None, recv_error_every_ms: None, stall: Some((at, ms)), rng_seed: 1 + seed });
         }
     }
     // an application that polls bootstrapped() (status display) while the node is bootstrapped
     for contacts in [1usize, 3] {
-        cfgs.push(Cfg { contacts, outages: false, minutes: 10, latency: 20, unreachable_hearsay: false, search_every_ms: None, send_delay_ms: 0, poll_bootstrapped_ms: Some(200), rng_seed: 1 + seed });
+        cfgs.push(Cfg { contacts, outages: false, minutes: 10, latency: 20, unreachable_hearsay: false, search_every_ms: None, send_delay_ms: 0, poll_bootstrapped_ms: Some(200), recv_error_every_ms: None, stall: None, rng_seed: 1 + seed });
     }
     let outs = par_map(&cfgs, |_, cfg| {
         let (sc, peers) = build(cfg);
